@@ -12,6 +12,7 @@
 -/
 import MW.Spec.Pending
 import MW.Lemmas.LedgerPendingInv
+import MW.Lemmas.LedgerPendingConfirm
 namespace MW.Lemmas.PendHist
 open MW MW.Model.Ledger MW.Spec.Pending MW.Lemmas.LedgerPending
 
@@ -96,5 +97,15 @@ theorem PendWF.congr {rank : TxId → Nat} {s s' : Store} (h : PendWF rank s) (h
 theorem PendRel.congr {rank : TxId → Nat} {s s' : Store} {P : List Tx} (h : PendRel rank s P)
     (h1 : s'.pending = s.pending) (h2 : s'.pendIns = s.pendIns) : PendRel rank s' P :=
   ⟨PendWF.congr h.wf h1 h2, fun id t => by rw [h1]; exact h.ids id t, h.nodup⟩
+
+/-- `s'` is reached from `s` by the confirm operation (`confirmPending` = the pending part of `insertMinedTx`) on
+    the records `trs` in order, interleaved with steps that leave the pending records and the spender index alone
+    (the mined-side bookkeeping, pending credits, deposit records) -/
+inductive ConfReach (own : Own) : List TxRec → Store → Store → Prop
+  | nil {s : Store} : ConfReach own [] s s
+  | silent {trs : List TxRec} {s s1 s' : Store} : s1.pending = s.pending → s1.pendIns = s.pendIns →
+      ConfReach own trs s1 s' → ConfReach own trs s s'
+  | conf {tr : TxRec} {trs : List TxRec} {s s' : Store} : ConfReach own trs (confirmPending own s tr) s' →
+      ConfReach own (tr :: trs) s s'
 
 end MW.Lemmas.PendHist
